@@ -367,7 +367,7 @@ class ZkFakeClient:
         return True
 
     def _watch(self, table, path, watch):
-        if watch is not None:
+        if watch:          # (kazoo registers nothing for a falsy watch, e.g. the {} that zkutils.get_default passes on)
             lst = table.setdefault(path, [])
             if not any(cb is watch for _c, cb in lst):
                 lst.append((self, watch))
